@@ -103,6 +103,8 @@ func objects() []obj {
 		mkpod("http80", "default", "p3", "rs2", map[string]string{"app": "b"}, 80),
 		mkpod("http8080", "default", "p3", "rs2", map[string]string{"app": "b"}, 8080),
 		mkpod("noowner", "default", "p4", "", map[string]string{"app": "b"}, 80),
+		// a second pod of owner rs2 with the same labels as p3 but another number behind the port name (a rolling update in progress)
+		mkpod("http8080", "default", "p5", "rs2", map[string]string{"app": "b"}, 8080),
 		// a workload object (InsertObject accepts them; DeleteObject does not, so there is no delete operation for it); its pod is default/d1-1
 		{kind: "Deployment", key: "Deployment/default/d1", variant: "http80", pod: &wm.Workload{Kind: "Deployment", NS: "default", Name: "d1", Labels: map[string]string{"app": "b"}, Ports: []wm.CPort{{Name: "http", Num: 80}}}},
 		{kind: "Deployment", key: "Deployment/default/d1", variant: "http8080", pod: &wm.Workload{Kind: "Deployment", NS: "default", Name: "d1", Labels: map[string]string{"app": "b"}, Ports: []wm.CPort{{Name: "http", Num: 8080}}}},
@@ -123,7 +125,7 @@ func objects() []obj {
 	}
 }
 
-var queries = [][4]string{{"a/p1", "default/p3", "tcp", "80"}, {"a/p1", "default/p3", "tcp", "8080"}, {"a/p2", "default/p3", "tcp", "80"}, {"default/p3", "a/p1", "tcp", "80"}, {"a/p1", "default/p4", "tcp", "80"}, {"a/p1", "a/p2", "tcp", "8080"}, {"a/p1", "default/d1-1", "tcp", "80"}}
+var queries = [][4]string{{"a/p1", "default/p3", "tcp", "80"}, {"a/p1", "default/p3", "tcp", "8080"}, {"a/p2", "default/p3", "tcp", "80"}, {"default/p3", "a/p1", "tcp", "80"}, {"a/p1", "default/p4", "tcp", "80"}, {"a/p1", "a/p2", "tcp", "8080"}, {"a/p1", "default/d1-1", "tcp", "80"}, {"a/p1", "default/p5", "tcp", "80"}, {"a/p1", "default/p3", "tcp", "http"}}
 
 func ops() []op {
 	var res []op
@@ -145,7 +147,7 @@ func ops() []op {
 		res = append(res, op{name: "q:" + strings.Join(q[:], ","), query: &q})
 	}
 	objs := objects()
-	res = append(res, op{name: "setresources:nsA(team=y)+p3(http8080)+n1(v2)", bulk: []obj{objs[1], objs[8], objs[13]}}, op{name: "clearresources", clear: true})
+	res = append(res, op{name: "setresources:nsA(team=y)+p3(http8080)+n1(v2)", bulk: []obj{objs[1], objs[8], objs[14]}}, op{name: "clearresources", clear: true})
 	return res
 }
 
@@ -377,8 +379,9 @@ func invariant(r result, hist []*op, seedLen int) (fails []fw.Failure, outcome s
 		refStr := "n/a"
 		if si >= 0 && di >= 0 {
 			var port int
-			fmt.Sscan(q[3], &port)
-			refStr = fmt.Sprint(w.Allowed(wm.Peer{WL: si}, wm.Peer{WL: di}, strings.ToUpper(q[2]), port))
+			if _, err := fmt.Sscan(q[3], &port); err == nil { // a port given by name has no reference verdict here: only history independence is checked
+				refStr = fmt.Sprint(w.Allowed(wm.Peer{WL: si}, wm.Peer{WL: di}, strings.ToUpper(q[2]), port))
+			}
 		}
 		if v1 != v2 || (e1 != nil) != (e2 != nil) {
 			fails = append(fails, fw.Failure{
